@@ -46,6 +46,8 @@ def check(chk, repo):
     chk.floor("competition loops reachable from the two fit methods", total, 4)
     from ..common import check_model_premises
     check_model_premises(rep, repo)
+    from ..common import check_learn_state_premise
+    check_learn_state_premise(rep, repo)
     from ..rules_heap import check_heap
     check_heap(rep, repo, "HEAP-")
     chk.undecided += [
